@@ -20,12 +20,23 @@ func init() { props["C16"] = c16 }
 var textFrameRe = regexp.MustCompile(`^TEXT [^,]*,(?: [^,$]*,)? \$(-?\d+)(?:-(\d+))?$`)
 
 func c16(c *Ctx) {
-	o := c.Out
-	rng := NewRNG(c.Seed + 1600)
 	n := 600
 	if c.Thorough() {
 		n = 20000
 	}
+	frameHistories(c, n, 1600, false, "Cases.v")
+	rule := c.Out.Plan.Rule
+	// addressing a local with an index register: the compiled code must keep the index apart from the other
+	// live values (pipeline validators of C01 on programs of that shape)
+	emitPipelineCases(c, indexedLocalProgs(NewRNG(c.Seed+1602), map[bool]int{false: 40, true: 600}[c.Thorough()]), []pipeCheck{chkDiff, chkAlloc, chkSim, chkDisc}, 20, func(p *Prog, ob *Observed) bool { return true })
+	c.Out.Plan.Rule = rule + "; plus functions that address their locals through a virtual index register while up to 12 other values are live (allocation validated)"
+}
+
+// frameHistories: histories of AllocLocal calls interleaved with code, compiled and printed; forceBP makes
+// every function write the base pointer (C15: the frame that saves it must hold the locals too)
+func frameHistories(c *Ctx, n int, seedOff uint64, forceBP bool, file string) {
+	o := c.Out
+	rng := NewRNG(c.Seed + seedOff)
 	var rows []string
 	var locals []operand.Mem
 	kinds := map[string]int{}
@@ -38,6 +49,9 @@ func c16(c *Ctx) {
 		k := rng.Intn(8)
 		if j == 0 {
 			k = 0
+		}
+		if forceBP && k < 2 {
+			k = 2
 		}
 		var sizes []int64
 		var offs []int64
@@ -92,6 +106,10 @@ func c16(c *Ctx) {
 		emit()
 		emit()
 		emit()
+		if forceBP && !clob && fattr&attr.NOFRAME == 0 {
+			ctx.MOVQ(operand.U32(1), reg.RBP)
+			clob = true
+		}
 		pressure := fattr&attr.NOFRAME == 0 && rng.Chance(12)
 		if pressure { // fifteen values live at once: the allocator has to use the base pointer
 			var vs []reg.GPVirtual
@@ -162,10 +180,10 @@ func c16(c *Ctx) {
 	fmt.Fprintf(&b, "Definition cases : list frame_case := %s.\n", cListNL(rows))
 	b.WriteString("Definition R_mismatch := Eval vm_compute in indices_where_Z (fun c => negb (frame_agree c)) cases.\nPrint R_mismatch.\n")
 	b.WriteString("Definition R_violation := Eval vm_compute in indices_where_Z (fun c => negb (frame_impl_ok c)) cases.\nPrint R_violation.\n")
-	o.WriteFile("Cases.v", b.String())
-	o.Stage("Cases.v")
-	o.ExpectEmpty("Cases.v", "R_mismatch", "mismatch", "bump-allocator model vs Context.AllocLocal offsets and the frame size on the TEXT line")
-	o.ExpectEmpty("Cases.v", "R_violation", "violation", "a returned local region leaves the declared frame, overlaps another region, or meets the frame-pointer save slot")
+	o.WriteFile(file, b.String())
+	o.Stage(file)
+	o.ExpectEmpty(file, "R_mismatch", "mismatch", "bump-allocator model vs Context.AllocLocal offsets and the frame size on the TEXT line")
+	o.ExpectEmpty(file, "R_violation", "violation", "a returned local region leaves the declared frame, overlaps another region, or meets the frame-pointer save slot")
 	// addressing inside a local: the regions, offset and indexed through the operand helpers
 	memHelperFile(o, NewRNG(c.Seed+1601), 3*len(locals), locals, "MemOps.v")
 	o.Plan.Rule = "random histories of 0..7 AllocLocal calls (sizes 0, unaligned 1..7, 8, multiples of 8, arbitrary up to 100) interleaved with instruction emission, with and without a write to the base pointer (named, or chosen by the allocator under pressure of fifteen live values); compiled with pass.Compile and printed; non-trivial = at least two allocations; distinct by (sizes, clobber)"
